@@ -242,28 +242,21 @@ Proof.
   cbn [fst] in *. exact A.
 Qed.
 
-(* a call is well scheduled when no mutation of a stream is committed after the stream-end recompute *)
-Definition api_ok (a : api) : bool := negb (has_late a).
 Fixpoint prog_ok (s : state) (p : list api) : Prop :=
   match p with
   | [] => True
-  | a :: t => api_ok a = true /\ batches_covered s (batches_of a) /\ prog_ok (fst (trace_api (s, []) a)) t
+  | a :: t => batches_covered s (batches_of a) /\ prog_ok (fst (trace_api (s, []) a)) t
   end.
 
-Lemma select_none : forall {A} (early : list bool) (os : list A), existsb negb early = false -> select (map negb early) os = [].
-Proof.
-  induction early as [|b m IH]; intros os H; [destruct os; reflexivity|].
-  cbn [existsb] in H. apply orb_false_iff in H as [Hb Hm]. destruct b; [|discriminate].
-  destruct os as [|x l]; [reflexivity|]. cbn [map negb select]. apply IH; exact Hm.
-Qed.
-Lemma promising_ends_with_compute : forall a, promises a = true -> api_ok a = true ->
+(* every call that promises announcement ends with a recompute in a batch after its writes:
+   mutate / delete request it after the acknowledgement, a stream after its last reply *)
+Lemma promising_ends_with_compute : forall a, promises a = true ->
   exists bs, batches_of a = bs ++ [[MCompute]].
 Proof.
-  intros a Hp Ho. destruct a as [t|o|o| |os early]; try discriminate.
+  intros a Hp. destruct a as [t|o|o| |os]; try discriminate.
   - exists [[MOp o]]. reflexivity.
   - exists []. reflexivity.
-  - unfold api_ok, has_late in Ho. apply negb_true_iff in Ho.
-    exists (map (fun o => [MOp o]) (select early os)). cbn [batches_of]. rewrite (select_none early os Ho). reflexivity.
+  - exists (map (fun o => [MOp o]) os). reflexivity.
 Qed.
 Lemma batches_covered_app : forall b1 b2 s, batches_covered s (b1 ++ b2) -> batches_covered s b1.
 Proof.
@@ -277,7 +270,7 @@ Theorem seq_announced : forall p s tr s' tr',
 Proof.
   induction p as [|a t IH]; intros s tr s' tr' Ha Hi Hp H; cbn [fold_left] in H.
   - inversion H; subst; exact Ha.
-  - destruct Hp as [Hok [Hcov Hrest]].
+  - destruct Hp as [Hcov Hrest].
     destruct (trace_api (s, tr) a) as [s1 tr1] eqn:E.
     assert (Hs1 : s1 = fst (trace_api (s, []) a)).
     { pose proof (trace_api_state a s tr) as S. rewrite E in S. exact S. }
@@ -285,7 +278,7 @@ Proof.
     unfold trace_api in E. destruct (trace_batches (s, tr) (batches_of a)) as [s2 tr2] eqn:B.
     destruct (trace_batches_ext _ _ _ _ _ B) as [new [En Nn]].
     destruct (promises a) eqn:Pr; inversion E; subst s2 tr1; clear E.
-    + destruct (promising_ends_with_compute a Pr Hok) as [bs Eb]. rewrite Eb in B, Hcov.
+    + destruct (promising_ends_with_compute a Pr) as [bs Eb]. rewrite Eb in B, Hcov.
       pose proof (quiescent_all_reported _ _ _ _ _ Hi (batches_covered_app _ _ _ Hcov) B) as Q.
       eapply IH; [| |exact Hrest|exact H].
       * rewrite announced_app. fold (owed tr2). rewrite Q. cbn [announced_ok]. rewrite andb_true_r.
@@ -323,10 +316,9 @@ Lemma api_classes_nil : forall p s cl, snd (fold_left api_classes p (s, cl)) = [
 Proof.
   induction p as [|a t IH]; intros s cl H; cbn [fold_left] in H; [split; [exact H | exact I]|].
   cbn [api_classes] in H. destruct (fold_left unc_batch (batches_of a) (s, false)) as [s1 unc] eqn:U.
-  apply IH in H as [Hcl Ht]. apply app_eq_nil in Hcl as [Hcl Hc]. apply app_eq_nil in Hc as [Hl Hu].
+  apply IH in H as [Hcl Ht]. apply app_eq_nil in Hcl as [Hcl Hu].
   destruct unc; [discriminate|]. apply unc_batches_false in U as [_ [Hcov Hs]].
-  split; [exact Hcl|]. split; [|split; [exact Hcov|]].
-  - unfold api_ok. destruct (has_late a); [discriminate | reflexivity].
+  split; [exact Hcl|]. split; [exact Hcov|].
   - assert (E : fst (trace_api (s, []) a) = s1).
     { unfold trace_api. destruct (trace_batches (s, []) (batches_of a)) as [x y]. cbn [fst] in *. symmetry; exact Hs. }
     rewrite E. exact Ht.
@@ -382,25 +374,26 @@ Theorem any_batching_quiescent : forall t0 bs s' tr',
   batches_covered (init t0) bs -> trace_batches (init t0, []) (bs ++ [[MCompute]]) = (s', tr') -> owed tr' = [].
 Proof. intros t0 bs s' tr' Hc H. eapply quiescent_all_reported; [|exact Hc|exact H]. intros k []. Qed.
 
-(* ------------------------------------------------------------------ refutation: the stream schedule *)
-(* one streamed creation; the stream-end recompute is processed first: the change is committed,
-   its key stays dirty, no event names it, and nothing requests another recompute *)
+(* ------------------------------------------------------------------ the stream, repaired (a874354) *)
+(* the former refutation witness: one streamed creation, then nothing else: announced *)
 Definition w_stream : c18case :=
-  CSeq 1000 [ATick 1010; AStream [LCreate 1 (Some 1%N) 1 1] [false]].
-Definition w_stream_ok : c18case :=
-  CSeq 1000 [ATick 1010; AStream [LCreate 1 (Some 1%N) 1 1] [true]].
-Lemma stream_refuted :
-  spec_C18 w_stream (run_C18 w_stream) = false /\ known_C18 w_stream = [1] /\
-  run_trace w_stream = [TW []; TE []; TW [(1%N, 1%N, 0)]; TQ] /\
-  map l_dirty (log (fst (trace_prog 1000 [ATick 1010; AStream [LCreate 1 (Some 1%N) 1 1] [false]]))) = [true] /\
-  spec_C18 w_stream_ok (run_C18 w_stream_ok) = true /\ known_C18 w_stream_ok = [].
+  CSeq 1000 [ATick 1010; AStream [LCreate 1 (Some 1%N) 1 1]].
+Lemma stream_holds :
+  spec_C18 w_stream (run_C18 w_stream) = true /\ known_C18 w_stream = [] /\
+  run_trace w_stream = [TW []; TW [(1%N, 1%N, 0)]; TE [(1%N, 1%N, 0)]; TQ].
 Proof. vm_compute. repeat split; reflexivity. Qed.
+(* what remains refuted: a write that leaves a changed key unmarked (C09 class 6) is never announced *)
+Definition w_unmarked : c18case :=
+  CSeq 1000 [ATick 1010; AIngest (SNodes 1 [sn 1 1 5000 1; sn 2 1 6000 2]); ACompute;
+             AIngest (SNodes 1 [sn 1 2 (D + 7000) 3]); ACompute].
+Lemma unmarked_refuted : spec_C18 w_unmarked (run_C18 w_unmarked) = false /\ known_C18 w_unmarked = [3].
+Proof. vm_compute. split; reflexivity. Qed.
 
 (* a sequential mix over two days and two rooms: nothing known, every change announced *)
 Definition w_seq : c18case :=
   CSeq 1000 [ATick 1010; ACall (LCreate 1 (Some 1%N) 1 1); AIngest (SNodes 2 [sn 2 2 5000 2; sn 3 1 6000 3]); ACompute;
              ATick (D + 5); ACall (LUpdate 1 1 (Some 2%N) 4); ACall (LDelNode 1 1 5);
-             AStream [LCreate 4 (Some 1%N) 2 6; LCreate 5 (Some 2%N) 2 7] [true; true]].
+             AStream [LCreate 4 (Some 1%N) 2 6; LCreate 5 (Some 2%N) 2 7]].
 Lemma seq_nonvacuous :
   known_C18 w_seq = [] /\ spec_C18 w_seq (run_C18 w_seq) = true /\
   length (filter (fun e => match e with TE (_ :: _) => true | _ => false end) (run_trace w_seq)) = 5%nat.
@@ -408,4 +401,4 @@ Proof. vm_compute. repeat split; reflexivity. Qed.
 
 Definition C18_full : Prop := forall c, spec_C18 c (run_C18 c) = true.
 Lemma full_refuted : ~ C18_full.
-Proof. intro H. specialize (H w_stream). destruct stream_refuted as [E _]. rewrite E in H. discriminate. Qed.
+Proof. intro H. specialize (H w_unmarked). destruct unmarked_refuted as [E _]. rewrite E in H. discriminate. Qed.
